@@ -46,7 +46,8 @@ type File struct {
 }
 
 // Hist is one earlier compilation: program Prog of histProgs (-1 = the
-// measured program itself), compiled with a fresh compiler.Compiler and either
+// measured program itself, -2-k = HistMains[k] of the case), compiled with a
+// fresh compiler.Compiler and either
 // the Params object of the measured compilation (Share) or its own.
 type Hist struct {
 	Prog  int  `json:"prog"`
@@ -55,25 +56,29 @@ type Hist struct {
 
 // Case is one program with options, history and repetition counts.
 type Case struct {
-	Kind    string   `json:"kind"`           // gen | multi | repo | lib
-	Name    string   `json:"name,omitempty"` // repo: path below the repository root
-	Main    string   `json:"main,omitempty"` // source text (gen, multi, lib)
-	Files   []File   `json:"files,omitempty"`
-	Sizes   [][]int  `json:"sizes,omitempty"`
-	Prune   bool     `json:"prune,omitempty"`
-	GMW     bool     `json:"gmw,omitempty"`
-	MultThr int      `json:"multthr,omitempty"`
-	History []Hist   `json:"history,omitempty"`
-	Reps    int      `json:"reps"`  // in-process compilations
-	Procs   int      `json:"procs"` // worker processes
-	WReps   int      `json:"wreps"` // compilations per worker
-	Tags    []string `json:"tags,omitempty"`
+	Kind    string  `json:"kind"`           // gen | multi | repo | lib
+	Name    string  `json:"name,omitempty"` // repo: path below the repository root
+	Main    string  `json:"main,omitempty"` // source text (gen, multi, lib)
+	Files   []File  `json:"files,omitempty"`
+	Sizes   [][]int `json:"sizes,omitempty"`
+	Prune   bool    `json:"prune,omitempty"`
+	GMW     bool    `json:"gmw,omitempty"`
+	MultThr int     `json:"multthr,omitempty"`
+	History []Hist  `json:"history,omitempty"`
+	// HistMains are further programs over the same scratch packages, used
+	// as earlier compilations: Hist.Prog == -2-k selects HistMains[k].
+	HistMains []string `json:"histmains,omitempty"`
+	Reps      int      `json:"reps"`  // in-process compilations
+	Procs     int      `json:"procs"` // worker processes
+	WReps     int      `json:"wreps"` // compilations per worker
+	Tags      []string `json:"tags,omitempty"`
 }
 
 func init() {
 	ev.Register("gen", run)
 	ev.Register("multi", run)
 	ev.Register("repo", run)
+	ev.Register("native", run)
 }
 
 // ---------------------------------------------------------------------------
@@ -166,6 +171,10 @@ func compileHist(cs Case, h Hist, params *utils.Params) {
 	defer func() { recover() }()
 	params.SSAOut = new(sink)
 	defer func() { params.SSAOut = nil }()
+	if h.Prog <= -2 && len(cs.HistMains) > 0 {
+		compiler.New(params).Compile(cs.HistMains[(-2-h.Prog)%len(cs.HistMains)], cs.Sizes)
+		return
+	}
 	if h.Prog < 0 {
 		compileWith(cs, params)
 		return
@@ -395,7 +404,7 @@ func scanSource(text string) srcInfo {
 func pkgSources(cs Case, name string) []string {
 	var res []string
 	for _, f := range cs.Files {
-		if filepath.ToSlash(filepath.Dir(f.Path)) == name {
+		if filepath.ToSlash(filepath.Dir(f.Path)) == name && strings.HasSuffix(f.Path, ".mpcl") {
 			res = append(res, f.Text)
 		}
 	}
@@ -740,7 +749,17 @@ func run(cs Case) ev.Outcome {
 		classes = append(classes, "gates<1k")
 	}
 
-	nontrivial := pi.varPkgs >= 2 || pi.allConsts >= 3
+	clash := nativeClash(cs)
+	if clash {
+		classes = append(classes, "same-named-circ-files-differ")
+	}
+	for _, h := range cs.History {
+		if h.Prog <= -2 {
+			classes = append(classes, "history=other-main-over-same-pkgs")
+			break
+		}
+	}
+	nontrivial := pi.varPkgs >= 2 || pi.allConsts >= 3 || clash
 	out := ev.OK(nontrivial, classes...)
 	out.Evals = len(res)
 	h := sha256.New()
@@ -797,6 +816,40 @@ func genSingle(t *rapid.T) Case {
 	return cs
 }
 
+// nativeClash tells whether two packages of the case ship a circuit file of
+// the same base name with different contents.
+func nativeClash(cs Case) bool {
+	for i, f := range cs.Files {
+		if !strings.HasSuffix(f.Path, ".circ") {
+			continue
+		}
+		for _, g := range cs.Files[:i] {
+			if filepath.Base(g.Path) == filepath.Base(f.Path) && g.Text != f.Text {
+				return true
+			}
+		}
+	}
+	return false
+}
+
+func genNative(t *rapid.T) Case {
+	cs := Case{Kind: "native"}
+	cs.Main, cs.HistMains, cs.Files, cs.Tags = drawNativeProgram(t)
+	drawCommon(t, &cs, true)
+	// Most histories compile another main over the same package tree (which
+	// loads the same-named circuit files of other packages) first.
+	n := rapid.IntRange(0, 3).Draw(t, "nhistmain")
+	var pre []Hist
+	for i := 0; i < n; i++ {
+		pre = append(pre, Hist{
+			Prog:  -2 - rapid.IntRange(0, len(cs.HistMains)-1).Draw(t, "histmain"),
+			Share: rapid.Bool().Draw(t, "hmshare"),
+		})
+	}
+	cs.History = append(pre, cs.History...)
+	return cs
+}
+
 func genMulti(t *rapid.T) Case {
 	cs := Case{Kind: "multi"}
 	cs.Main, cs.Files, cs.Tags = drawMultiProgram(t)
@@ -813,6 +866,12 @@ func TestGen(t *testing.T) {
 func TestMulti(t *testing.T) {
 	setScratch(t)
 	ev.Check(t, ev.Get(prop), "multi", genMulti, run)
+	checkWorkers(t)
+}
+
+func TestNative(t *testing.T) {
+	setScratch(t)
+	ev.Check(t, ev.Get(prop), "native", genNative, run)
 	checkWorkers(t)
 }
 
